@@ -166,6 +166,8 @@ def gen_callers(r, driver, ncallers, maxops, mix=(0.45, 0.15, 0.4), **kw):
                                       kw.get("allow_raise", True),
                                       kw.get("allow_cancel", True)))
         callers.append({"id": "ABCDEFGH"[ci], "start_us": starts[ci], "ops": ops})
+        if ci and kw.get("start_on_event") and r.random() < kw["start_on_event"]:
+            callers[-1]["start_at_event"] = r.randrange(1, 30)
     return callers
 
 
@@ -224,6 +226,10 @@ def shrink(plan):
         if c.get("start_us"):
             p = copy.deepcopy(plan)
             p["callers"][i]["start_us"] = 0
+            yield p
+        if c.get("start_at_event") is not None:
+            p = copy.deepcopy(plan)
+            del p["callers"][i]["start_at_event"]
             yield p
     kn = plan["knobs"]
     for k, simple in (("latency", "nominal"), ("quirk", False), ("idle_spam", False),
